@@ -381,6 +381,24 @@ class SeriesOps:
                     return obj[k]
                 if all(isinstance(x, (str, int)) for x in obj) and isinstance(k, (str, int)):
                     return pos[1] if len(pos) > 1 else None
+                # a small dispatch table with known keys looked up with a SYMBOLIC key (e.g. TABLE.get((x.kind, y.kind), default)): decided key by key, like the
+                # if-ladder it replaces (one path per entry and one for the default)
+                kt = to_term(pos[0])
+
+                def closed(t_):
+                    return T.is_const(t_) or (isinstance(t_, tuple) and len(t_) == 2 and t_[0] == "tuple" and all(T.is_const(x_) for x_ in t_[1]))
+                keys_ = [(kk, to_term(kk) if not (isinstance(kk, tuple) and kk and isinstance(kk[0], str)) else kk) for kk in obj]
+                if 0 < len(obj) <= 8 and not T.has_opaque(kt) and not closed(kt) and all(closed(t_) for _k, t_ in keys_) and I.run.loop_depth == 0:
+                    for kk, t_ in keys_:
+                        if t_[0] == "tuple" and kt[0] == "tuple" and len(t_[1]) == len(kt[1]):
+                            c_ = T.and_(*[T.cmp("==", a_, b_) for a_, b_ in zip(kt[1], t_[1])])
+                        elif t_[0] != "tuple" and kt[0] != "tuple":
+                            c_ = T.cmp("==", kt, t_)
+                        else:
+                            continue
+                        if I.decide(c_, node):
+                            return obj[kk]
+                    return pos[1] if len(pos) > 1 else None
                 return ("dictget", to_term(obj), to_term(pos[0]), to_term(pos[1]) if len(pos) > 1 else T.NONE)
             if name == "items":
                 return [PyTuple([k, v]) for k, v in obj.items()]      # also for symbolic ('each') keys: iteration over the keys behaves the same way
